@@ -41,9 +41,11 @@ class EdgeMonitor(Monitor):
     def reset(self):
         self.prev = {}
         self.prev_marked = {}
+        self.prev_attempt = {}
 
     def on_commit(self, v):
         ctx = self.r.ctx
+        T = v.eng.tables
         for k, j in v.jobs.items():
             s = j['state']
             ps = self.prev.get(k)
@@ -54,11 +56,22 @@ class EdgeMonitor(Monitor):
                 if self.check_lifecycle and (ps, s) not in self.ALLOWED:
                     key = 'lifecycle/terminal-left' if ps in TERMINAL else ('lifecycle/pending-skipped' if ps == 'Pending' else 'lifecycle/illegal-edge')
                     self.r.violation(explain(self.p, key, scopes), f'job {k} moved {ps} -> {s}', {'job': list(k), 'edge': [ps, s]})
+                if self.check_lifecycle and s == 'Ready' and ps in ('Creating', 'Running') and self.prev_attempt.get(k) is not None:
+                    # "a Creating or Running job may fall back to Ready when its attempt is withdrawn": the attempt it was
+                    # running under must be over (ended, or its instance gone)
+                    ctx.count('fallbacks_to_ready_checked')
+                    a = T['attempts'].pk_get(k[0], k[1], self.prev_attempt[k])
+                    inst = T['instances'].pk_get(a['instance_name']) if a is not None and a['instance_name'] is not None else None
+                    if a is not None and a['end_time'] is None and inst is not None and inst['state'] in ('pending', 'active'):
+                        self.r.violation(explain(self.p, 'lifecycle/fell-back-to-ready-while-its-attempt-is-live', scopes),
+                                         f'job {k} moved {ps} -> Ready although its attempt {self.prev_attempt[k]} on {a["instance_name"]} ({inst["state"]}) has not ended',
+                                         {'job': list(k), 'attempt': self.prev_attempt[k]})
                 if self.check_cancel and s in ('Creating', 'Running') and ps not in ('Creating', 'Running'):
                     if self.prev_marked.get(k) and not j['always_run']:
                         self.r.violation(explain(self.p, 'cancelled-job-started/entered-' + s.lower(), scopes),
                                          f'job {k} (not always_run) entered {s} although it was already marked cancelled', {'job': list(k), 'edge': [ps, s]})
             self.prev[k] = s
+            self.prev_attempt[k] = j['attempt_id']
             self.prev_marked[k] = v.marked_cancelled(j) and v.committed(j)
 
 
